@@ -343,6 +343,32 @@ def regConfigs : List (String × Bool × Bool) :=
 registration does not enter -/
 def invitesDelivered (set : Bool) (cs : List Child) : Nat := if set then inviteCalls cs else 0
 
+/-! ### Sessions (limit of the model)
+
+The LTS does not know sessions: `Client.managed` is keyed by the occupant address alone and
+`JoinPresence` refuses a second channel for an address whatever session either channel lives on.
+`stepS sess` is the variant in which the refusal looks at the session (`sess c`: the session channel
+`c` lives on) — a channel of ANOTHER session takes the registration over.  On one session it is the
+LTS (`C18_session_guard_one_session`); with channels on different sessions it loses the invariant
+(`C18_session_guard_breaks_reg`). -/
+def stepS (sess : Nat → Nat) (s : St) : Act → Option St
+  | .joinStart c a => match s.jpc c with
+    | .idle =>
+      if s.managed a ≠ none ∧ s.managed a ≠ some c ∧ (s.managed a).map sess = some (sess c) then
+        some { s with lastJoin := upd s.lastJoin c (some (.err .refused)) }
+      else
+        some { s with managed := upd s.managed a (some c), req := upd s.req c a,
+                      depart := upd s.depart c false,
+                      jpc := upd s.jpc c .pending, lastJoin := upd s.lastJoin c none }
+    | _ => none
+  | a => step s a
+
+def runS (sess : Nat → Nat) : St → List Act → Option St
+  | s, [] => some s
+  | s, a :: as => match stepS sess s a with
+    | some s' => runS sess s' as
+    | none => none
+
 def Act.isJoinStartOf (c : Nat) : Act → Bool
   | .joinStart c' _ => c' == c
   | _ => false
